@@ -30,8 +30,10 @@ trace:  TLC (Table_Trace) recomputes from the OBSERVED name set what the header 
 Readings (the weaker one where the statement leaves a choice):
   * "alphabetically" = ascending by code point (Python's str order), as DESIGN.md fixes it.
   * an empty holder renders as the empty text: read as "no header, no rows".
-  * horizon = the horizon the solver used (EquationSolver.Parser.MaxTime after the call; a MaxTime set
-    on the solver object overrides the one in the equation text, as documented in ParseString).
+  * horizon = the horizon the user STATED: EquationSolver.MaxTime set on the solver object if it was set
+    (0 included), else the MaxTime line of the equation text (for a Model: Model.MaxTime, which
+    Model.main() writes as that line), else 0.  What the solver ended up using (Parser.MaxTime) is
+    only compared as conformance (DRIFT solve_horizon).
   * precision of a format: '%.5g' relative 1e-4, '%.12g' relative 1e-11, '%e' relative 1e-6,
     '%f' absolute 1e-6, '%d' exact (only rendered on int-only series).  Values are compared as
     floats (an int beyond 2**53 is compared through float(int), which is what '%g' prints).
@@ -180,7 +182,7 @@ def render_event(cls, src, holder, produce):
 # (a) replay of a TLC behaviour
 # --------------------------------------------------------------------------------------
 
-def solver_text(names, holder, h, rng):
+def solver_text(names, holder, block_h, rng):
     """A well-posed block over the stored names (never a pure alias, no simultaneous loop)."""
     lines = []
     prev = None
@@ -200,7 +202,8 @@ def solver_text(names, holder, h, rng):
         if holder[n] and rng.random() < 0.7:
             lines.append('%s(0) = %r' % (n, float(holder[n][0])))
         prev = n
-    lines.append('MaxTime = %d' % h)
+    if block_h is not None:
+        lines.append('MaxTime = %d' % block_h)
     return '\n'.join(lines)
 
 
@@ -211,6 +214,7 @@ def hist_of(beh):
         return beh['hist']
     hist = [dict(op='put', name=p['name'], len=p['len'], kind=p['kind'], fmt='', h=0) for p in beh['puts']]
     if beh['solve']['is']:
+        hist.append(dict(op='horizon', name=[], len=0, kind='int', fmt='', h=beh['solve']['horizon'], place='block'))
         hist.append(dict(op='solve', name=[], len=0, kind='num', fmt='', h=beh['solve']['horizon']))
     hist += [dict(op='render', name=[], len=0, kind='int', fmt=f, h=0) for f in beh['renders']]
     return hist
@@ -238,10 +242,16 @@ def execute(beh, seed):
     events = []
     holder = TimeSeriesHolder('k')
     table_of = holder
+    stated = {}
     for o in hist:
         op = o['op']
         name = name_of(o['name'])
-        if op == 'put':
+        if op == 'horizon':
+            if o['place'] not in ('block', 'solver'):
+                raise core.MachineryError('a replayed behaviour states the horizon in %r' % (o['place'],))
+            stated[o['place']] = o['h']
+            ev = {'ev': 'Horizon', 'place': o['place'], 'h': o['h']}
+        elif op == 'put':
             ev = {'ev': 'Put', 'name': o['name'], 'len': o['len'], 'kind': o['kind']}
             try:
                 have = len(holder[name]) if name in holder else None
@@ -277,13 +287,16 @@ def execute(beh, seed):
             except Exception:
                 ev.update(ok=False, list=[])
         elif op == 'solve':
-            ev = {'ev': 'Solve', 'h': o['h'], 'vs': [], 'must': True}
+            ev = {'ev': 'Solve', 'used': -1, 'vs': [], 'must': True}
             solver = None
             try:
-                text = solver_text(list(holder.keys()), holder, o['h'], rng)
-                solver = EquationSolver(text)
+                text = solver_text(list(holder.keys()), holder, stated.get('block'), rng)
+                solver = EquationSolver()
+                if 'solver' in stated:
+                    solver.MaxTime = stated['solver']      # stated on the solver object, before the text is parsed
+                solver.ParseString(text)
                 solver.SolveEquation()
-                ev.update(ok=True, h=int(solver.Parser.MaxTime))
+                ev.update(ok=True, used=int(solver.Parser.MaxTime))
             except Exception:
                 ev['ok'] = False
             if solver is not None:
@@ -304,46 +317,82 @@ def execute(beh, seed):
 # --------------------------------------------------------------------------------------
 
 BLOCKS = {
-    'mixed': ("_x = 0.5*k + 1.\nA = _x + 2.\na = 3.5\niteration = A * 2.\nt = k + 0.\nT = 7\n"
-              "exogenous\nZ_1 = [1., 2., 3., 4., 5., 6., 7., 8., 9., 10., 11., 12., 13.]\nMaxTime = %(h)d", None),
-    'loop': ("x = y + 1.\ny = 0.5*x\nx(0) = 3.\nMaxTime = %(h)d", None),
-    'lagged': ("x = 0.5*LAG_x + 1e-3*k\nLAG_x = x(k-1)\nBig = 1e300*x\ntiny = 1e-300*x\nneg = -x\nx(0) = 2.\n"
-               "MaxTime = %(h)d", None),
-    'override': ("x = y + 1.\ny = 0.5*x\nx(0) = 3.\nMaxTime = 9", 'solver'),   # horizon set on the solver
-    'nomaxtime': ("x = 2.\ny = x + k", 'none'),                               # no MaxTime anywhere: horizon 0
-    'diverges': ("x = x + 1.\nMaxTime = %(h)d", None),                        # ConvergenceError: a failed solve
+    'mixed': "_x = 0.5*k + 1.\nA = _x + 2.\na = 3.5\niteration = A * 2.\nt = k + 0.\nT = 7\n"
+             "exogenous\nZ_1 = [1., 2., 3., 4., 5., 6., 7., 8., 9., 10., 11., 12., 13.]",
+    'loop': "x = y + 1.\ny = 0.5*x\nx(0) = 3.",
+    'lagged': "x = 0.5*LAG_x + 1e-3*k\nLAG_x = x(k-1)\nBig = 1e300*x\ntiny = 1e-300*x\nneg = -x\nx(0) = 2.",
+    'plain': "x = 2.\ny = x + k",
+    'diverges': "x = x + 1.",                        # ConvergenceError: a failed solve
 }
+BOOK = ('SIM', 'SIMEX1', 'PC')
 
 
 def model_specs(tier, rng):
-    specs = [{'model': 'SIM', 'maxtime': 10}, {'model': 'SIMEX1', 'maxtime': 6}, {'model': 'PC', 'maxtime': 15},
-             {'block': 'mixed', 'h': 3}, {'block': 'loop', 'h': 0}, {'block': 'lagged', 'h': 5},
-             {'block': 'override', 'h': 2}, {'block': 'nomaxtime', 'h': 0}, {'block': 'diverges', 'h': 4}]
+    """Each spec says where the horizon is stated: 'block' (MaxTime line of the text; for a gl_book model
+    Model.MaxTime, place "model") and / or 'solver' (EquationSolver.MaxTime); absent = not stated there."""
+    specs = [{'model': 'SIM', 'block': 10}, {'model': 'SIMEX1', 'block': 6, 'solver': 2},
+             {'model': 'PC', 'block': 15}, {'model': 'SIM', 'block': 3, 'solver': 0},
+             {'block_text': 'mixed', 'block': 3}, {'block_text': 'loop', 'block': 0},
+             {'block_text': 'lagged', 'block': 5}, {'block_text': 'loop', 'block': 9, 'solver': 2},
+             {'block_text': 'loop', 'block': 4, 'solver': 0}, {'block_text': 'mixed', 'solver': 1},
+             {'block_text': 'plain'}, {'block_text': 'plain', 'solver': 0},
+             {'block_text': 'diverges', 'block': 4}]
     if tier != 'quick':
-        specs += [{'model': 'SIM', 'maxtime': 100}, {'model': 'SIM', 'maxtime': 1}, {'model': 'SIM', 'maxtime': 0},
-                  {'model': 'SIMEX1', 'maxtime': 40}, {'model': 'PC', 'maxtime': 3}, {'model': 'PC', 'maxtime': 60}]
-        for name in ('mixed', 'loop', 'lagged', 'override', 'diverges'):
-            for h in sorted(rng.sample(range(0, 13), 4)):
-                specs.append({'block': name, 'h': h})
+        specs += [{'model': 'SIM', 'block': 100}, {'model': 'SIM', 'block': 1}, {'model': 'SIM', 'block': 0},
+                  {'model': 'SIMEX1', 'block': 40}, {'model': 'PC', 'block': 3}, {'model': 'PC', 'block': 60},
+                  {'model': 'PC', 'block': 7, 'solver': 0}, {'model': 'SIMEX1', 'block': 0, 'solver': 3},
+                  {'model': 'PC', 'block': 2, 'solver': 1}]
+        for name in ('mixed', 'loop', 'lagged', 'plain', 'diverges'):
+            for b in [None] + sorted(rng.sample(range(0, 13), 3)):
+                for sv in (None, 0, rng.randint(1, 6)):
+                    spec = {'block_text': name}
+                    if b is not None:
+                        spec['block'] = b
+                    if sv is not None:
+                        spec['solver'] = sv
+                    if spec not in specs:
+                        specs.append(spec)
     return specs
 
 
+def legacy_spec(spec):
+    """replay files written before the horizon statements were part of the case"""
+    if 'maxtime' in spec:
+        return {'model': spec['model'], 'block': spec['maxtime']}
+    if 'h' in spec:
+        name = spec['block']
+        if name == 'override':
+            return {'block_text': 'loop', 'block': 9, 'solver': spec['h']}
+        if name == 'nomaxtime':
+            return {'block_text': 'plain'}
+        return {'block_text': name, 'block': spec['h']}
+    return spec
+
+
 def execute_model(spec, wd):
-    """Build and solve a real model; returns the trace events (Solve, then Renders)."""
+    """Build and solve a real model; returns the trace events (Horizon statements, Solve, then Renders)."""
     from sfc_models.equation_solver import EquationSolver
     from sfc_models.utils import Logger
+    spec = legacy_spec(spec)
     events = []
     solver = None
     logged = None
     ok = True
+    is_model = 'model' in spec
+    if 'block' in spec:
+        events.append({'ev': 'Horizon', 'place': 'model' if is_model else 'block', 'h': spec['block']})
+    if 'solver' in spec:
+        events.append({'ev': 'Horizon', 'place': 'solver', 'h': spec['solver']})
     try:
-        if 'model' in spec:
+        if is_model:
             import sfc_models.gl_book.chapter3 as ch3
             import sfc_models.gl_book.chapter4 as ch4
             cls = {'SIM': ch3.SIM, 'SIMEX1': ch3.SIMEX1, 'PC': ch4.PC}[spec['model']]
             model = cls('C').build_model()
-            model.MaxTime = spec['maxtime']
+            model.MaxTime = spec['block']           # every gl_book spec states Model.MaxTime
             solver = model.EquationSolver
+            if 'solver' in spec:
+                model.EquationSolver.MaxTime = spec['solver']
             path = os.path.join(wd, 'timeseries_%s.txt' % core.digest(spec))
             Logger.cleanup()
             Logger.register_log(path, log='timeseries')
@@ -356,15 +405,13 @@ def execute_model(spec, wd):
                     with open(path) as f:
                         logged = f.read()
         else:
-            text, how = BLOCKS[spec['block']]
-            if how == 'solver':
-                solver = EquationSolver()
-                solver.MaxTime = spec['h']
-                solver.ParseString(text)
-            elif how == 'none':
-                solver = EquationSolver(text)
-            else:
-                solver = EquationSolver(text % {'h': spec['h']})
+            text = BLOCKS[spec['block_text']]
+            if 'block' in spec:
+                text += '\nMaxTime = %d' % spec['block']
+            solver = EquationSolver()
+            if 'solver' in spec:
+                solver.MaxTime = spec['solver']
+            solver.ParseString(text)
             solver.SolveEquation()
     except Exception:
         ok = False
@@ -372,7 +419,7 @@ def execute_model(spec, wd):
         raise core.MachineryError('could not even construct %r' % (spec,))
     holder = solver.TimeSeries
     snap = snapshot(holder)
-    ev = {'ev': 'Solve', 'h': int(solver.Parser.MaxTime), 'vs': snap['names'], 'ok': ok, 'must': False}
+    ev = {'ev': 'Solve', 'used': int(solver.Parser.MaxTime), 'vs': snap['names'], 'ok': ok, 'must': False}
     ev.update(snap)
     events.append(ev)
     events.append(render_event('g5', 'call-default', holder, lambda: solver.GenerateCSVtext()))
@@ -416,9 +463,15 @@ PRIORITY = ('iteration', 'iteration_error', 'iteration_abs_change', 'k', 't')
 def signature(clause, events):
     """What fails, from the first Render event the clause is false on (names the root cause)."""
     solved = None
+    stated = {}
     for ev in events:
+        if ev['ev'] == 'Horizon':
+            stated['solver' if ev['place'] == 'solver' else 'block'] = ev['h']
         if ev['ev'] == 'Solve':
-            solved = ev['h'] if ev['ok'] else None
+            if 'used' not in ev:                  # events of an old replay file
+                solved = ev['h'] if ev['ok'] else None
+            else:
+                solved = stated.get('solver', stated.get('block', 0)) if ev['ok'] else None
         if ev['ev'] in ('Put', 'Store', 'Delete'):
             solved = None                     # the holder is no longer as the solver left it
         if ev['ev'] != 'Render':
@@ -441,7 +494,9 @@ def signature(clause, events):
             if ev['ok'] and not ev['lens'] and ev['rows'] != 0:
                 return 'rows-without-series'
             if ev['ok'] and solved is not None and ev['rows'] != solved + 1:
-                return 'rows-differ-from-horizon+1-after-solve'
+                where = '+'.join(sorted(stated)) or 'nowhere'
+                return 'rows-differ-from-horizon+1-after-solve:horizon-stated-in-' + where + \
+                    (':zero' if solved == 0 else '')
         elif clause == 'C19_CellIsFormattedValue':
             if ev['ok'] and (len(ev['cells']) != ev['rows'] or
                              any(len(r) != len(ev['header']) or not all(r) for r in ev['cells'])):
@@ -509,8 +564,9 @@ def run(rep):
                        'instances is enumerated completely; the stored VALUES are seeded random samples '
                        '(VERIF_SEED), not exhaustive',
                        'precision of a format: %.5g rel 1e-4, %.12g rel 1e-11, %e rel 1e-6, %f abs 1e-6, %d exact',
-                       'alphabetical = ascending by code point; horizon = EquationSolver.Parser.MaxTime after the '
-                       'solve; horizon+1 rows demanded while the solved holder is untouched',
+                       'alphabetical = ascending by code point; horizon = the stated one (EquationSolver.MaxTime if set, '
+                       '0 included, else the MaxTime line / Model.MaxTime, else 0); horizon+1 rows demanded while the '
+                       'solved holder is untouched',
                        'TLC 1.8 / tla2tools; float()/int()/Fraction of Python parse the cells']
     behs = []
     seen = set()
@@ -535,6 +591,8 @@ def run(rep):
         cases.append(({'kind': 'holder', 'behaviour': b, 'seed': rep.seed}, execute(b, rep.seed)))
     rep.extra['behaviours_replayed'] = len(cases)
     rep.extra['solves_replayed'] = sum(1 for b in behs for o in b['hist'] if o['op'] == 'solve')
+    rep.extra['solves_with_horizon_stated_on_solver'] = sum(
+        1 for b in behs for o in b['hist'] if o['op'] == 'horizon' and o['place'] == 'solver')
     rep.extra['renders_after_a_change_of_an_observed_holder'] = sum(
         1 for b in behs if any(o['op'] in ('list', 'render') and
                                any(m['op'] in ('put', 'store', 'del') for m in b['hist'][i + 1:])
